@@ -111,7 +111,7 @@ def sections_with(text, option):
 
 
 @st.composite
-def config_case(draw, bases=None, generated=True, min_end=None, sampling_focus=False, small_sampling=False,
+def config_case(draw, bases=None, generated=True, min_end=None, sampling_focus=False, small_sampling=False, g4_one_in=8,
                 cells_only=False,
                 composites_only=False, max_events=(300, 1500)):
     """A configuration = shipped base + parameter edits (never wiring edits) + simulation seed + event budget."""
@@ -121,6 +121,20 @@ def config_case(draw, bases=None, generated=True, min_end=None, sampling_focus=F
     if composites_only:
         pool = [b for b in pool if "coulomb_atoms" not in b]
     base = draw(st.sampled_from(pool))
+    if generated and not cells_only and bases is None and draw(st.integers(0, g4_one_in - 1)) == 0:
+        # generated family G4 (hard-disk dipoles, 2-D, general velocities)
+        N = draw(st.integers(2, 6))
+        edits = [("SingleIndependentActiveSequentialDirectionEndOfChainEventHandler", "chain_time",
+                  repr(round(draw(st.floats(0.3, 3.0)), 4))),
+                 ("PolarizationSamplingEventHandler", "sampling_interval", repr(round(draw(st.floats(0.2, 5.0)), 4)))]
+        if draw(st.booleans()):
+            edits.append(("SingleProcessMediator", "scheduler", draw(st.sampled_from(["heap_scheduler",
+                                                                                      "list_scheduler"]))))
+        if min_end is not None:
+            edits.append(("FinalTimeEndOfRunEventHandler", "end_of_run_time",
+                          repr(round(draw(st.floats(min_end[0], min_end[1])), 4))))
+        return {"base": G4, "g4_N": N, "edits": [list(e) for e in edits], "seed": draw(st.integers(0, 2 ** 31)),
+                "events": draw(st.integers(max_events[0], max_events[1])), "cluster": "lattice"}
     text = shipped_text(base)
     edits = []
     gen = generated and draw(st.integers(0, 3)) > 0
@@ -194,7 +208,42 @@ def config_case(draw, bases=None, generated=True, min_end=None, sampling_focus=F
     return case
 
 
+G4 = "G4:hard_disk_dipoles"
+
+
+def g4_text(N):
+    """Generated family G4: the shipped hard_disk_dipoles.ini wiring (hard-sphere + hard-dipole factors, sequential-
+    direction end of chain with general velocities in 2-D) with the PDB input handler (needs MDAnalysis, absent)
+    replaced by the random input handler, N dipoles placed by the harness on a lattice (non-overlapping start)."""
+    import math
+    text = shipped_text("hard_disk_dipoles/hard_disk_dipoles.ini")
+    m = max(1, math.ceil(math.sqrt(N) - 1e-9))
+    text = set_option(text, "HypercubicSetting", "system_length", repr(3.0 * m))
+    text = set_option(text, "Sphere", "number_event_handlers", str(max(1, 2 * N - 2)))
+    text = set_option(text, "InputOutputHandler", "input_handler", "random_input_handler")
+    # drop the PDB section, add the random input handler sections of single_hard_disk_dipole.ini
+    lines, skip = [], False
+    for line in text.splitlines():
+        if line.strip() == "[PdbInputHandler]":
+            skip = True
+            continue
+        if skip and line.startswith("["):
+            skip = False
+        if not skip:
+            lines.append(line)
+    text = "\n".join(lines) + "\n"
+    text += ("\n[RandomInputHandler]\nrandom_node_creator = dipole_random_node_creator\nnumber_of_root_nodes = %d\n"
+             "\n[DipoleRandomNodeCreator]\ncharge_values = electric_charge_values (charge_values)\n"
+             "min_initial_dipole_separation = 0.96\nmax_initial_dipole_separation = 1.04\n" % N)
+    return text
+
+
 def materialise(case):
+    if case["base"] == G4:
+        text = g4_text(case["g4_N"])
+        for sec, opt, val in case["edits"]:
+            text = set_option(text, sec, opt, val)
+        return text
     text = shipped_text(case["base"])
     for sec, opt, val in case["edits"]:
         text = set_option(text, sec, opt, val)
